@@ -339,7 +339,7 @@ func c29StubSha256New() hash.Hash {
 
 // crypto.SHA256.New() (the engine does not run crypto.RegisterHash from dependency initialisers).
 //
-//verif:stub (crypto.Hash).New
+// (engine stub for (crypto.Hash).New: registered through zz_verif_stubs.go)
 func c29StubHashNew(h crypto.Hash) hash.Hash {
 	if !verifrt.Symbolic() || !c29On || h != crypto.SHA256 {
 		return h.New()
